@@ -20,6 +20,8 @@ pub enum CelError {
 }
 pub type CelResult<T> = Result<T, CelError>;
 
+const MAX_CALL_DEPTH_MSG: &str = "Max call depth excceded";
+
 impl CelError {
     pub fn misc(msg: &str) -> CelError {
         CelError::Misc(msg.to_owned())
@@ -60,6 +62,15 @@ impl CelError {
             parent: parent_name.to_string(),
             field: field_name.to_string(),
         }
+    }
+
+    /// The failure of an evaluation that nests deeper than the interpreter allows.
+    pub(crate) fn max_call_depth() -> CelError {
+        CelError::Runtime(MAX_CALL_DEPTH_MSG.to_owned())
+    }
+
+    pub(crate) fn is_max_call_depth(&self) -> bool {
+        matches!(self, CelError::Runtime(msg) if msg == MAX_CALL_DEPTH_MSG)
     }
 
     pub fn type_string(&self) -> &'static str {
